@@ -33,6 +33,9 @@ was generated and used, and the odd-order vector filters share the grid shape of
 
 Self-test of the added dimensions: penalise_field_boundary_2d.py:43 y_grid_field[-1, 0] -> y_grid_field[min(shape) - 1, 0]
 (wrong only when grid_size_y > grid_size_x) -> VIOLATION damping-ring!=0, witnesses only on the 'tall' grid (12, 7).
+penalise_field_boundary_3d.py:64 z_grid_field_start read from y_grid_field -> VIOLATION damping-ring!=0, witnesses only on kernels
+whose axes have distinct origins; laplacian_filter_3d.py:99 ring reset of filter_flux_buffer only on the first call of a filter
+object -> VIOLATION filter-constant-not-fixed / filter-depends-on-buffer-garbage (2nd and later calls).
 (A harness bug was made and fixed while adding the re-check of earlier filter objects: closures over loop variables bind late.)
 
 Tolerances (K * eps_t * magnitude; measured max err/tol on the unchanged tree + F6.diff, seeds 0..5 quick,
